@@ -56,6 +56,16 @@ impl PupRelation {
         delta: f64,
         max_privacy_unit_groups: u64,
     ) -> Result<DpRelation> {
+        #[cfg(feature = "verif-hooks")]
+        crate::verif_hooks::emit(
+            "tau_thresholding",
+            vec![
+                ("relation", self.name().into()),
+                ("epsilon", epsilon.into()),
+                ("delta", delta.into()),
+                ("max_privacy_unit_groups", max_privacy_unit_groups.into()),
+            ],
+        );
         // It limits the PU contribution to at most max_privacy_unit_groups random groups
         // It counts distinct PUs
         // It applies tau-thresholding
